@@ -35,7 +35,7 @@ package peer
 // A membership message is applied to the table: a registration (re)inserts the
 // instance with a fresh expiry, an unregistration removes it; anything undecodable
 // changes nothing.
-//@ contract internal/peer.(*RedisPubsubPeers).listen props C18
+//@ contract internal/peer.(*RedisPubsubPeers).listen props C18,C17
 //@   requires p != nil && p.peers != nil && p.peers.TTL >= 0
 //@   ensures[register-inserts] forall ad string, i string :: !strings.Contains(ad, ",") && msg == "R" + ad + "," + i ==> in(p.peers.Items, i) && p.peers.Items[i].Value == ad && p.peers.Items[i].Expiration == clockNow(p.peers.Clock).Add(p.peers.TTL)
 //@   ensures[unregister-removes] forall ad string, i string :: !strings.Contains(ad, ",") && msg == "U" + ad + "," + i ==> !in(p.peers.Items, i)
@@ -45,3 +45,33 @@ package peer
 //@   ensures[every-unregistration-re-examines-the-table] forall ad string, i string :: !strings.Contains(ad, ",") && msg == "U" + ad + "," + i ==> checkN(p) == old(checkN(p)) + 1
 //@   ensures[others-only-expire] forall j string :: in(p.peers.Items, j) && !(exists ad string :: !strings.Contains(ad, ",") && msg == "R" + ad + "," + j) ==> in(old(p.peers.Items), j) && p.peers.Items[j] == old(p.peers.Items)[j]
 //@   modifies p.hash, p.peers.Items, checkN(p)
+
+// ---- C18 (a live, publishing node stays in every peer list): the refresh loop Ready starts announces this node
+// more often than entries expire - the ticker it creates, and any period it is later reset to, stays below
+// PeerEntryTimeout - and every tick publishes one Register message for this node.
+//@ ghost tickerPeriod(ref) int
+//@ ghost publishedN(ref) int
+//@ package pubsub
+//@ assume pubsub.PubSub.Publish
+//@   ghostupdate[announced@C18] publishedN(this) :: publishedN(this) == old(publishedN(this)) + 1
+//@ package internal/peer
+//@ assume internal/peer.newPeerCommand
+//@   ensures result != nil
+//@ assume config.Config.GetPeerTimeout getter
+//@ assume internal/peer.(*RedisPubsubPeers).stop
+//@ final internal/peer.RedisPubsubPeers.PubSub
+//@ final internal/peer.RedisPubsubPeers.peers
+//@ assume generics.(*MapWithTTL).Length
+//@ assume generics.(*MapWithTTL).SortedValues
+//@ contract internal/peer.(*RedisPubsubPeers).Ready$lit1 props C18 havocheap noinv localcalls
+//@   arith math
+//@   assert only none
+//@   requires p != nil && p.PubSub != nil && p.peers != nil
+//@   loop 1 invariant[announcements-come-faster-than-entries-expire] 0 < tickerPeriod(ticker) && tickerPeriod(ticker) < toInt(PeerEntryTimeout)
+//@   modifies all(publishedN), all(fnCallsT), all(fnCalls), all(fnCalledN)
+//@ fragment internal/peer.(*RedisPubsubPeers).Ready$lit1 select 1 case 2 props C18 havocheap noinv localcalls
+//@   assert only none
+//@   requires p != nil && p.PubSub != nil && p.peers != nil
+//@   let ps = p.PubSub
+//@   ensures[every-tick-announces-this-node] publishedN(ps) == old(publishedN(ps)) + 1
+//@   modifies all(publishedN), all(fnCallsT), all(fnCalls), all(fnCalledN)
